@@ -4,7 +4,8 @@ CAP (strict) over spiftool_split, spif_tok_eval, spiftool_get_word, spiftool_get
 scan cursor stays at or before the terminator on every path (including a trailing backslash, a quote inside the other
 kind of quote, an explicit delimiter set), every token buffer write is in bounds, and every scanner loop advances.
 The token lists themselves (the grammar) are not decided."""
-from .. import facts, expr as X
+from .. import facts, expr as X, loopstate
+from ..facts import walk
 from ..report import Check
 from ..cap import Cap
 from ..capcheck import run_cap
@@ -26,6 +27,7 @@ def run(tier="quick"):
                 explanation="CAP (strict, with loop-progress obligations) over the scanners: cursor-vs-terminator discipline and token-buffer bounds")
     chk.rule("B1", "cursor never passes the terminator; token buffer writes in bounds")
     chk.rule("P1", "every scanner loop advances")
+    chk.rule("S2", "word loops carry only their header variables from word to word (no stale delimiter/quote state)")
     prog = facts.extract()
     fns = []
     for nm in FUNCS:
@@ -50,6 +52,16 @@ def run(tier="quick"):
                 k += 1
                 chk.ob("P1", o.fn.name, "progress:loop%d" % k, o.ok, loc=o.fn.loc(o.node), detail="%s: %s" % (o.fn.name, o.detail),
                        proof="a cursor/index strictly advances on every path through the body")
+    # S2: the word loops treat every word on its own: only the variables named by the loop header survive an iteration
+    nitem = 0
+    for nm in ("spiftool_get_word", "spiftool_get_pword", "spiftool_num_words"):
+        f = prog.fn(nm)
+        outer = [x for x in walk(f.body) if x.get("k") in ("for", "while") and any(y.get("k") in ("for", "while") for y in walk(x.get("body") or {}) if y is not x)]
+        outer = [x for x in outer if not any(x is not o and any(y is x for y in walk(o.get("body") or {})) for o in outer)]
+        for lp in outer:
+            nitem += 1
+            loopstate.check_item_loop(chk, "S2", f, lp, "word")
+    chk.count("word_loops", nitem, floor=3)
     chk.count("scanners", n, floor=5)
     chk.count("loops_with_progress_obligation", nloops, floor=12)
     chk.count("undecided_obligations", nund)
